@@ -38,6 +38,13 @@ CHECKS = {
     ),
 }
 
+CHECKS["C20"] = dict(
+    technique="model-based testing: Hypothesis-generated configuration histories replayed against a reference model of the documented dispatch rules, observing instantiated backend classes, stand-in call logs and posted programs",
+    text="Generated histories combine environment variables (backend name incl. auto/junk/empty; 13 spellings of the boolean flags; backend path), the importable subset of {cspuz_core, enigma_csp, pycsugar, z3} (sys.modules substitution), later assignments to cspuz.config and per-call arguments (backend None/name/class/junk; use_graph_primitive None/True/False x acyclic for every graph function). After each step the instantiated backend class, the invoked external entry point (stand-in call logs, subprocess argv, presence of the # line) and the presence of native graph operators in solver.constraints are compared with a reference model of the documented rules; import-time Config() is covered by fresh-interpreter cases. Exploration (sampled histories).",
+    note="Trusted base: the 25-line reference model in checks/c20.py (ref_config / expected_native); stand-ins for the external solvers. A named backend whose module is missing must still instantiate its class; the ImportError is accepted. 13/13 sensitivity mutants caught.",
+    design_ref="3/C20",
+)
+
 NOT_BUILT_REASON = "check not built yet in this session (planned in DESIGN.md section 3); not claimed until it runs quietly and is mutation-tested"
 
 def main():
